@@ -151,6 +151,12 @@ def tasks(tier, seed):
     for sk in SKELETONS:
         for r in hist_rn:
             t.append(dict(part='history', skeleton=sk, renaming=list(r), tier=tier))
+    # dictionaries handed to a live BIOGEME object (change_init_values) and to a formula (fix_betas), naming fixed
+    # parameters as well as free ones; sequences of two dictionaries
+    set_rn = [rn[0], rn[59], rn[23], rn[41]] if tier == 'quick' else rn[::3]
+    for sk in SKELETONS:
+        for r in set_rn:
+            t.append(dict(part='setvalues', skeleton=sk, renaming=list(r), tier=tier))
     return t
 
 
@@ -166,6 +172,8 @@ def run_task(task):
         _duplicates(rec)
     elif task['part'] == 'history':
         _history(task, rec)
+    elif task['part'] == 'setvalues':
+        _setvalues(task, rec)
     return rec.result()
 
 
@@ -315,6 +323,116 @@ def _history(task, rec):
                                   f'{holder} expression of {sk}, sequence of dictionaries (masks) {seq}: step {step} with {dct(mask, 0.125 * (step + 1))} gave {got}, '
                                   f'expected {want} [renaming {mapping}, statuses {st}]', case, expected=want, observed=got)
     rec.sample(dict(part='history', skeleton=sk, renaming=mapping, depth=depth))
+
+
+def _setvalues(task, rec):
+    """Name->value dictionaries given to a live BIOGEME object (change_init_values: all 2^3 dictionaries, and all
+    ordered pairs of them) and to a formula (fix_betas: all ordered pairs of the 2^3 dictionaries), for every status
+    assignment, the dictionaries naming fixed parameters as well as free ones.
+
+    change_init_values: a named free parameter takes the dictionary value, every other free parameter keeps the value it
+    had; a fixed parameter that is not named keeps its value.  For a NAMED fixed parameter the statement can be read both
+    ways (it keeps the value it was given / the dictionary overrides it), so both are accepted for it -- but nothing else
+    may move.
+    fix_betas: documented as "fix all the parameters appearing in the dictionary" at the value given there: afterwards the
+    named parameters are fixed at the dictionary values (the later dictionary wins), the others are untouched."""
+    from vf.engine import make_db, make_biogeme
+    sk, r, tier = task['skeleton'], tuple(task['renaming']), task['tier']
+    mapping = dict(zip(['p0', 'p1', 'p2'], r))
+    inv = {n: o for o, n in mapping.items()}
+    canonical = SKELETONS[sk][0]
+    variant = SKELETONS[sk][-1]
+    origs = ['p0', 'p1', 'p2']
+    db = make_db(ROWS, COLS)
+
+    def dict_for(mask, shift):
+        return {mapping[o]: POINT[o] + shift for i, o in enumerate(origs) if mask >> i & 1}
+
+    for statuses in status_assignments(tier):
+        st = dict(zip(origs, statuses))
+        free_orig = [o for o in origs if st[o] != 'fixed']
+        fixed_orig = [o for o in origs if st[o] == 'fixed']
+        spec = spec_for(mapping, statuses)
+        case0 = dict(part='setvalues', skeleton=sk, renaming=list(r), statuses=list(statuses), tier=tier)
+
+        def bad(clause, what, **kw):
+            rec.violation(f'C03|{clause}|{sk}', what + f' [renaming {mapping}, statuses {st}]', dict(case0, **kw))
+
+        # ---- change_init_values on a live BIOGEME object: one dictionary, then a second one
+        second = [None] + (list(range(1, 8)) if tier == 'thorough' else [1, 2, 4, 7])
+        for m1 in range(1, 8):
+            for m2 in second:
+                seq = [dict_for(m1, 0.125)] + ([dict_for(m2, -0.375)] if m2 is not None else [])
+                key = ('civ', sk, r, statuses, m1, m2)
+                try:
+                    expr = R.Builder(spec).build(rename(variant, mapping))
+                    b = make_biogeme(db, expr)
+                    for dct in seq:
+                        b.change_init_values(dict(dct))
+                    cur = {nm: float(v) for nm, v in b.get_beta_values().items()}
+                    ll = float(b.calculate_init_likelihood())
+                except Exception as e:
+                    rec.case(key, ('raised', type(e).__name__), outcome='raised')
+                    bad(f'change_init_values-raised-{type(e).__name__}', f'{seq}: {str(e)[:200]}', m1=m1, m2=m2)
+                    continue
+                want_free = {o: ORIG[o] for o in free_orig}
+                fixed_options = {o: {ORIG[o]} for o in fixed_orig}
+                for dct in seq:
+                    for nm, v in dct.items():
+                        if inv[nm] in want_free:
+                            want_free[inv[nm]] = v
+                        else:
+                            fixed_options[inv[nm]].add(v)
+                rec.case(key, (m1, m2, statuses, round(ll, 9)), outcome=('civ', len(seq), len(fixed_orig)))
+                got_free = {inv[nm]: v for nm, v in cur.items() if nm in inv}
+                if got_free != want_free:
+                    bad('dictionary-overrides-a-parameter-it-does-not-name',
+                        f'change_init_values{seq}: free parameters now {got_free} (by original name), expected {want_free}', m1=m1, m2=m2)
+                    continue
+                allowed = []
+                for combo in itertools.product(*[sorted(fixed_options[o]) for o in fixed_orig]):
+                    params = dict(want_free)
+                    params.update(dict(zip(fixed_orig, combo)))
+                    allowed.append(sum(ref_values(canonical, params)))
+                if not any(close(ll, w) for w in allowed):
+                    bad('dictionary-overrides-a-parameter-it-does-not-name',
+                        f'change_init_values{seq}: log likelihood at the current values {ll!r}; expected one of {allowed} '
+                        f'(free parameters {want_free}, fixed ones at their given or named value)', m1=m1, m2=m2)
+
+        # ---- fix_betas on a formula: all ordered pairs of dictionaries
+        for m1 in range(1, 8):
+            for m2 in second:
+                seq = [dict_for(m1, 0.125)] + ([dict_for(m2, -0.375)] if m2 is not None else [])
+                key = ('fix', sk, r, statuses, m1, m2)
+                try:
+                    expr = R.Builder(spec).build(rename(variant, mapping))
+                    for dct in seq:
+                        expr.fix_betas(dict(dct))
+                    got = [float(v) for v in expr.get_value_c(database=db, prepare_ids=True)]
+                    still_free = sorted(expr.set_of_elementary_expression(_beta_free_type()))
+                except Exception as e:
+                    rec.case(key, ('raised', type(e).__name__), outcome='raised')
+                    bad(f'fix_betas-raised-{type(e).__name__}', f'{seq}: {str(e)[:200]}', m1=m1, m2=m2)
+                    continue
+                params = dict(ORIG)
+                named = set()
+                for dct in seq:
+                    for nm, v in dct.items():
+                        params[inv[nm]] = v
+                        named.add(inv[nm])
+                want = ref_values(canonical, params)
+                want_free = sorted(mapping[o] for o in free_orig if o not in named)
+                rec.case(key, (m1, m2, statuses, [round(v, 9) for v in got]), outcome=('fix', len(seq), len(fixed_orig)))
+                if not all(close(a, w) for a, w in zip(got, want)):
+                    bad('fix_betas-value-not-the-one-named', f'fix_betas{seq}: values {got}, expected {want} (parameters {params} by original name)',
+                        m1=m1, m2=m2)
+                if still_free != want_free:
+                    bad('fix_betas-status', f'fix_betas{seq}: free parameters afterwards {still_free}, expected {want_free}', m1=m1, m2=m2)
+
+
+def _beta_free_type():
+    from biogeme.expressions.elementary_types import TypeOfElementaryExpression
+    return TypeOfElementaryExpression.FREE_BETA
 
 
 def _subformulas(expr):
